@@ -84,6 +84,10 @@ def jobs(tier):
         J("bitv.model_" + nm, B, "h_bitv_model_" + nm, fns, ins, cls="B", bound="nbits<=%d" % modbits, native=True,
           defs=["-DBV_MODW=1", "-DBV_MODBITS=%d" % modbits],
           cbmc=["--unwind", str(modbits + 1), "--unwinding-assertions"], timeout=900 if thorough else 240)
+    for nb in (1, 63, 64, 65, 127, 128, 129):
+        J("bitv.model_words.nbits%d" % nb, B, "h_bitv_model_words", ["bitvMax", "bitvTest"], ["rv", "jx"], cls="B",
+          bound="nbits = %d; every bit pattern" % nb, native=True, defs=["-DBV_NB=%d" % nb],
+          cbmc=["--unwind", "132", "--unwinding-assertions"], timeout=900 if thorough else 240)
     J("bitv.int_roundtrip", B, "h_bitvInt_roundtrip", ["bitvFromInt", "bitvToInt", "bitvSet", "bitvClear", "bitvTest"], ["nbits", "n"],
       cbmc=["--unwind", "32", "--unwinding-assertions"], native=True, defs=["-DV_ALLOC_SIMPLE"])
 
